@@ -106,6 +106,7 @@ class Instance:
         # loop iteration and function call, so the builder must have copied what it keeps.
         self.placement = placement
         self.src = None
+        self.keycase = rng.random() < 0.34
         self.rec, self.caps, self.allow, self.tok, self.timeouts, self.S, self.rng = rec, caps, allow, tok, timeouts, S, rng
         self.pdir = os.path.join(base, "p") + "/"
         self.ddir = os.path.join(base, "d") + "/"
@@ -149,6 +150,17 @@ class Instance:
         return bytes(b)
 
     def key_text(self, tok):
+        if tok not in self.keys and self.keycase:
+            # distinct key tokens of equal length become spellings of ONE word that differ only in ASCII case
+            # (environment variable names are case-sensitive here: they are different keys)
+            n = self.tok[tok]["len"] * self.S
+            if n > 0 and not self.tok[tok]["nul"] and not self.tok[tok]["eq"]:
+                order = sorted(self.tok)
+                word = ("naija_key_" * (n // 10 + 1))[:n]
+                style = order.index(tok) % 3
+                text = word.lower() if style == 0 else word.upper() if style == 1 else "".join(ch.upper() if j % 2 else ch for j, ch in enumerate(word))
+                if text.encode() not in self.keys.values():
+                    self.keys[tok] = text.encode()
         if tok not in self.keys:
             for _ in range(50):
                 s = self.text(tok, "key")
